@@ -307,6 +307,65 @@ def arith_task(p, cfg, rec):
     p.res['states'] += 1
 
 
+CHAINS = {
+    '(a*b)*(a*b)': lambda a, b: a.mul(b).mul(a.mul(b)),
+    '((a*a)*(a*a))*b': lambda a, b: a.mul(a).mul(a.mul(a)).mul(b),
+    '(a+b)*(a-b)': lambda a, b: a.add(b).mul(a.sub(b)),
+    '((a*b)+a)-b': lambda a, b: a.mul(b).add(a).sub(b),
+    '(a*b)-(b*a)': lambda a, b: a.mul(b).sub(b.mul(a)),
+}
+
+
+def chain_task(p, cfg, rec):
+    """chained FPNum operations (the precision of intermediate results grows beyond what one operation on format
+    operands produces): operands are drawn by symbolic selectors from a table of boundary mantissas and exponent fields,
+    every selector combination is explored, each path is concrete and compared with exact rational arithmetic"""
+    from fractions import Fraction
+    fmt, chain = cfg['fmt'], cfg['chain']
+    ew, mw, bias = FMT[fmt]
+    mants = sorted(set([0, 1, (1 << mw) - 1, (1 << mw) - 2, 1 << (mw - 1), (1 << (mw - 1)) + 1, int('01' * mw, 2) & ((1 << mw) - 1)]))
+    exps = sorted(set([1, bias - 1, bias, bias + 2, (1 << ew) - 2]))
+    rec.update(['py4hw.helper.FPNum.add', 'py4hw.helper.FPNum.sub', 'py4hw.helper.FPNum.mul'])
+    sel = {k: core.fresh_range(k, 0, n - 1) for k, n in (('ma', len(mants)), ('mb', len(mants)), ('ea', len(exps)), ('eb', len(exps)), ('sb', 2))}
+    p.assumptions = list(ctx.assumptions)
+
+    def val(x):
+        return Fraction(x.s * x.m, x.p) * Fraction(2) ** x.e
+
+    def scenario():
+        ma, mb = mants[int(sel['ma'][0])], mants[int(sel['mb'][0])]
+        ea, eb = exps[int(sel['ea'][0])], exps[int(sel['eb'][0])]
+        sb = int(sel['sb'][0])
+        with quiet():
+            a, b = fpnum_of(fmt, 0, ea, ma), fpnum_of(fmt, sb, eb, mb)
+            r = CHAINS[chain](a, b)
+            ref = CHAINS[chain](_Exact(val(a)), _Exact(val(b))).v
+        return (ma, mb, ea, eb, sb), (val(r) if r.p else None), ref
+    res = run_paths(scenario)
+    total = len(mants) ** 2 * len(exps) ** 2 * 2
+    p.res['states'] += 1
+    p.res['transitions'] += len(res)
+    p.structural('every selector combination explored (%d)' % total, len([r for r in res if r.exc is None]) == total,
+                 detail={'paths': len(res), 'exceptions': [repr(r.exc) for r in res if r.exc is not None][:3]})
+    bad = [{'operands (ma, mb, ea, eb, sign b)': r.ret[0], 'got': str(r.ret[1]), 'exact': str(r.ret[2])} for r in res if r.exc is None and r.ret[1] != r.ret[2]]
+    p.structural('%s %s is exact for every combination' % (fmt, chain), not bad, detail={'failing': bad[:3], 'count': len(bad)})
+
+
+class _Exact:
+    """rational stand-in with FPNum's method names"""
+    def __init__(self, v):
+        self.v = v
+
+    def add(self, o):
+        return _Exact(self.v + o.v)
+
+    def sub(self, o):
+        return _Exact(self.v - o.v)
+
+    def mul(self, o):
+        return _Exact(self.v * o.v)
+
+
 def zero_task(p, cfg, rec):
     """compare() when one operand is a zero, however the zero was produced (pattern of either sign, float 0.0,
     exact cancellation a - a): zero orders below every positive and above every negative value, equal to any zero"""
@@ -410,6 +469,9 @@ def tasks_for(tier, seed):
             es = list(range(emax + 1))
         for e in es:
             t.append(('FloatingPointHelper %s exponent field %d' % (fmt, e), float_task, {'fmt': fmt, 'e': e}))
+    for fmt in (('dp', 'hp') if quick else ('dp', 'sp', 'hp')):
+        for chain in CHAINS:
+            t.append(('FPNum chained arithmetic %s %s, operands from a boundary table' % (fmt, chain), chain_task, {'fmt': fmt, 'chain': chain}))
     # the long-running sp/dp arithmetic tasks first, so that they overlap with the many short ones
     heavy = [x for x in t if x[0].startswith('FPNum arithmetic dp')] + [x for x in t if x[0].startswith('FPNum arithmetic sp')]
     return heavy + [x for x in t if x not in heavy]
@@ -424,7 +486,7 @@ def main(argv=None):
                      'FloatingPointHelper conversions run on an exact dyadic float model (sign, integer mantissa, concrete exponent; only operations that are exact in double arithmetic); values not representable in the target format (rounding), FPNum.to_float/div/sqrt/reducePrecision* are outside'],
         bounds={'two\'s complement': 'all widths 1..16 (32 thorough), value and width symbolic', 'FixedPoint': 'all formats (1,i,f), i >= 1, up to total width 8 (12)',
                 'FPNum round trip': 'hp: all 32 exponent fields; sp: 21 fields quick / all 256 thorough; dp: 17 quick / all 2048 thorough; both signs, all mantissas',
-                'FPNum arithmetic': 'hp: exponent pairs (band + boundaries quick, all 31x31 thorough); sp/dp: boundary pairs, all mantissa pairs (thorough; dp pairs may end at the task time limit) and, wide-gap sp/dp pairs (2 quick, 6 thorough) with only the top 3 and bottom 2 mantissa bits free; all four sign combinations'},
+                'FPNum arithmetic': 'hp: exponent pairs (band + boundaries quick, all 31x31 thorough); sp/dp: boundary pairs, all mantissa pairs (thorough; dp pairs may end at the task time limit) and, wide-gap sp/dp pairs (2 quick, 6 thorough) with only the top 3 and bottom 2 mantissa bits free; all four sign combinations; chained operations (5 expression shapes) on operands drawn by symbolic selectors from 7 boundary mantissas x 5 exponent fields per operand'},
         trusted_base=['z3', 'symx operator semantics', 'rational cross-multiplication oracle in checks/c12.py (replay uses fractions.Fraction)'], task_limit=1800)
 
 
